@@ -1,6 +1,278 @@
-(* C10 - placeholder while the proofs are being written *)
-From Coq Require Import List ZArith Bool.
-From WH Require Import gen.Extracted model.EvmWatcher.
-Theorem C10_placeholder : evm_max_wait = evm_max_wait.
-Proof. reflexivity. Qed.
-Print Assumptions C10_placeholder.
+(* C10 - EVM messages reach the signer only from the core contract and when final; orphaned / re-mined / failed
+   transactions are dropped; a message whose transaction stays in its block is forwarded exactly once after the depth is
+   reached, however far the observed head advances between two polls, and is abandoned only after the node has failed
+   to confirm it for the whole abandonment window.
+
+   Model: model/EvmWatcher.v (pending : key -> (msg, height); operations OLog / OHead / OReobs; every answer of the node
+   is an input of the step that obtains it).  Constants, comparison operators, filters and the ORDER of the tests of the
+   per-head scan come from gen/Extracted.v, regenerated from node/pkg/ethereum/{watcher,by_transaction}.go on every run.
+   All theorems are over arbitrary states / histories / head sequences; `wf_p`, `wf_ev` and `0 <= n < two64` say that the
+   uint64 additions of the source do not wrap (block numbers below 2^64 - 255 - maxWaitConfirmations).
+
+   Vocabulary (proofs/EvmWatcherProofs.v): `decisions k outs` = all Confirmed / Dropped events about key k in the
+   per-step outputs `outs`; `no_relog k ops` = no log with key k is delivered in ops; `early_heads c k p pre` = every head
+   in pre is below height+expected, or is inside the abandonment window with a transient failure of the receipt lookup;
+   `expected_of wait safe p` = if wait && not safe then consistency level else 0 (extracted). *)
+From Coq Require Import List ZArith Bool Lia.
+From WH Require Import gen.Extracted model.EvmWatcher proofs.EvmWatcherProofs.
+Import ListNotations.
+Open Scope Z_scope.
+
+(* ---------------------------------------------------------------- safety, per-head scan, over every history from the empty watcher *)
+Theorem C10_scan_forward_safe : forall c hist n safe orc k m,
+  (forall e tm, In (OLog e (Some tm)) hist -> wf_ev e) -> 0 <= n < two64 ->
+  In (Confirmed k m) (snd (step c (fst (run c init hist)) (OHead n safe orc))) ->
+  exists e tm, In (OLog e (Some tm)) hist /\ key_of e = k /\ m = msg_of c e tm /\
+    e_h e + evm_expected (c_wait c) safe (e_cl e) <= n /\
+    orc k = mkAns (Some (1, e_bh e)) ENone.
+Proof. exact scan_forward_safe. Qed.
+
+(* the same for an arbitrary state, in the source's uint64 arithmetic (no range hypothesis) *)
+Theorem C10_scan_step_safe : forall c s n safe orc k m,
+  In (Confirmed k m) (snd (step c s (OHead n safe orc))) ->
+  exists p, In (k, p) s /\ m = p_msg p /\ thr_of (c_wait c) safe p <= u64 n /\ orc k = mkAns (Some (1, k_bh k)) ENone.
+Proof. exact scan_step_safe. Qed.
+
+(* ---------------------------------------------------------------- safety, re-observation path *)
+Theorem C10_reobserve_safe : forall c hb ha rc bt m,
+  (forall r blk, rc = Some r -> r_blk r = Some blk -> 0 <= blk /\ blk + 255 < two64) ->
+  (forall hd, hb = Some hd -> 0 <= hd < two64) ->
+  (forall r l e, rc = Some r -> In (Some l) (r_logs r) -> l_ev l = Some e -> 0 <= e_cl e <= 255) ->
+  In (Reobserved m) (reobserve c hb ha rc bt) ->
+  exists hd r t blk l e,
+    hb = Some hd /\ rc = Some r /\ r_status r = 1 /\ bt = Some t /\ r_blk r = Some blk /\
+    In (Some l) (r_logs r) /\ l_addr l = c_contract c /\ l_topic0 l = Some evm_lmp_topic /\ l_ev l = Some e /\
+    m = msg_of c e t /\
+    blk + (if c_wait c then e_cl e else 0) <= hd.
+Proof. exact reobserve_safe_math. Qed.
+
+Theorem C10_reobserve_safe_u64 : forall c hb ha rc bt m,
+  In (Reobserved m) (reobserve c hb ha rc bt) ->
+  exists hd r t blk l e,
+    hb = Some hd /\ rc = Some r /\ r_status r = 1 /\ bt = Some t /\ r_blk r = Some blk /\
+    In (Some l) (r_logs r) /\ l_addr l = c_contract c /\ l_topic0 l = Some evm_lmp_topic /\ l_ev l = Some e /\
+    m = msg_of c e t /\ u64 hd <> 0 /\
+    u64 (u64 blk + (if c_wait c then e_cl e else 0)) <= u64 hd.
+Proof. exact reobserve_safe. Qed.
+
+(* ---------------------------------------------------------------- liveness: exactly once, at the first deep head that answers *)
+Theorem C10_forwarded_exactly_once : forall c s k p pre n safe orc post,
+  NoDup (keys s) -> find k s = Some p -> wf_p p ->
+  no_relog k pre -> no_relog k post -> early_heads c k p pre ->
+  0 <= n < two64 ->
+  p_height p + expected_of (c_wait c) safe p <= n ->            (* however far beyond *)
+  orc k = mkAns (Some (1, k_bh k)) ENone ->                     (* status 1, same block, no error *)
+  let r := run c s (pre ++ OHead n safe orc :: post) in
+  decisions k (snd r) = [Confirmed k (p_msg p)] /\
+  In (Confirmed k (p_msg p)) (nth (length pre) (snd r) []) /\
+  find k (fst r) = None.
+Proof. exact forwarded_exactly_once. Qed.
+
+(* the general form: the first head that is deep enough and whose lookup does not fail transiently inside the window decides *)
+Theorem C10_first_decisive_head : forall c s k p pre n safe orc post,
+  NoDup (keys s) -> find k s = Some p -> wf_p p ->
+  no_relog k pre -> no_relog k post -> early_heads c k p pre ->
+  0 <= n < two64 ->
+  p_height p + expected_of (c_wait c) safe p <= n ->
+  (is_transient (a_err (orc k)) = true -> p_height p + expected_of (c_wait c) safe p + evm_max_wait <= n) ->
+  let v := verdict_math (c_wait c) safe n (orc k) k p in
+  let r := run c s (pre ++ OHead n safe orc :: post) in
+  decisions k (snd r) = decision_of v k p /\
+  (forall o, In o (decision_of v k p) -> In o (nth (length pre) (snd r) [])) /\
+  find k (fst r) = None.
+Proof. exact first_decisive_head. Qed.
+
+Theorem C10_still_pending_while_early : forall c s k p ops,
+  NoDup (keys s) -> find k s = Some p -> wf_p p -> no_relog k ops -> early_heads c k p ops ->
+  find k (fst (run c s ops)) = Some p /\ decisions k (snd (run c s ops)) = [].
+Proof. exact still_pending_while_early. Qed.
+
+(* ---------------------------------------------------------------- orphaned / failed / re-mined transactions are dropped, never forwarded *)
+Theorem C10_dropped : forall c s k p pre n safe orc post,
+  NoDup (keys s) -> find k s = Some p -> wf_p p ->
+  no_relog k pre -> no_relog k post -> early_heads c k p pre ->
+  0 <= n < two64 ->
+  p_height p + expected_of (c_wait c) safe p <= n ->
+  let r := run c s (pre ++ OHead n safe orc :: post) in
+  ((is_transient (a_err (orc k)) = false /\ is_orphan (orc k) = true) ->
+     decisions k (snd r) = [Dropped k WOrphan] /\ find k (fst r) = None) /\
+  (forall st h, orc k = mkAns (Some (st, h)) ENone -> st <> 1 ->
+     decisions k (snd r) = [Dropped k WFailed] /\ find k (fst r) = None) /\
+  (forall h, orc k = mkAns (Some (1, h)) ENone -> h <> k_bh k ->
+     decisions k (snd r) = [Dropped k WRemined] /\ find k (fst r) = None).
+Proof. exact dropped_when_resolved_otherwise. Qed.
+
+(* ---------------------------------------------------------------- abandonment only after the whole window of failed lookups *)
+Theorem C10_abandoned_only_after_window : forall c s k p pre n safe orc post,
+  NoDup (keys s) -> find k s = Some p -> wf_p p -> no_relog k pre ->
+  (forall n' safe' orc', In (OHead n' safe' orc') pre -> 0 <= n' < two64) -> 0 <= n < two64 ->
+  In (Dropped k WTimeout) (nth (length pre) (snd (run c s (pre ++ OHead n safe orc :: post))) []) ->
+  is_transient (a_err (orc k)) = true /\
+  p_height p + expected_of (c_wait c) safe p + evm_max_wait <= n /\
+  (forall n' safe' orc', In (OHead n' safe' orc') pre -> p_height p + expected_of (c_wait c) safe' p <= n' ->
+     is_transient (a_err (orc' k)) = true /\ n' < p_height p + expected_of (c_wait c) safe' p + evm_max_wait).
+Proof. exact abandoned_only_after_window. Qed.
+
+(* ---------------------------------------------------------------- never twice, whatever the node answers *)
+Theorem C10_at_most_once : forall c s k ops, NoDup (keys s) -> no_relog k ops ->
+  (length (filter (confirmedb k) (concat (snd (run c s ops)))) <= 1)%nat.
+Proof. exact at_most_once. Qed.
+
+(* ---------------------------------------------------------------- entries do not influence each other *)
+Theorem C10_key_independence : forall c k ops s, NoDup (keys s) ->
+  map (filter (aboutb k)) (snd (run c s ops)) = fst (fate c k (find k s) ops) /\
+  find k (fst (run c s ops)) = snd (fate c k (find k s) ops).
+Proof. exact run_fate. Qed.
+
+Theorem C10_pending_keys_distinct : forall c ops, NoDup (keys (fst (run c init ops))).
+Proof. intros c ops. apply nodup_run. constructor. Qed.
+
+(* ---------------------------------------------------------------- the order of the tests before repo commit 40922fc violated the liveness clause *)
+Theorem C10_original_order_refuted :
+  (* log at block 1000, level 1, first observed head 1065, receipt unchanged *)
+  scan_entry_gen true false true false 1065 ex_good ex_key ex_pm = (false, [Dropped ex_key WTimeout]) /\
+  scan_entry_gen false true true false 1065 ex_good ex_key ex_pm = (false, [Looked ex_key; Confirmed ex_key (p_msg ex_pm)]) /\
+  (* one transient RPC error at the first ready head *)
+  scan_entry_gen true false true false 1001 (mkAns None EOther) ex_key ex_pm = (false, [Looked ex_key; Dropped ex_key WOrphan]) /\
+  scan_entry_gen false true true false 1001 (mkAns None EOther) ex_key ex_pm = (true, [Looked ex_key]).
+Proof.
+  destruct original_order_head_jump as [A B]. destruct original_order_transient_error as [C D].
+  repeat apply conj; assumption.
+Qed.
+
+(* ================================================================ the hypotheses are satisfiable: concrete instances *)
+Definition exc : cfg := mkCfg true 1 4.
+Definition exk2 : key := mkKey 2 2 1 2.
+Definition exs : pending := [(ex_key, ex_pm); (exk2, mkP (mkMsg 2 1600000014 15 2 4 3 1 2 200) 1003)].
+Definition ex_err : key -> rans := fun _ => mkAns None EOther.
+Definition ex_ok : key -> rans := fun k => mkAns (Some (1, k_bh k)) ENone.
+Definition ex_pre : list op := [OHead 990 false ex_ok; OLog (mkEv 7 7 1000 1 7 1 50 1 7) (Some 1600000049); OHead 1001 false ex_err;
+                                OReobs (Some 1001) (Some 1001) None None; OHead 1030 false ex_err].
+Definition ex_post : list op := [OHead 1066 false ex_ok; OHead 1300 false ex_err].
+
+Lemma ex_nodup : NoDup (keys exs).
+Proof.
+  cbn [exs keys map fst]. constructor; [|constructor; [|constructor]].
+  - intros [H|H]; [discriminate H|contradiction].
+  - intros H; contradiction.
+Qed.
+Lemma ex_wf : wf_p ex_pm.
+Proof. unfold wf_p, ex_pm, two64, evm_max_wait. cbn [p_height p_msg m_cl]. lia. Qed.
+Lemma ex_norelog_pre : no_relog ex_key ex_pre.
+Proof.
+  intros o H. cbn [ex_pre In] in H.
+  repeat (destruct H as [H|H]; [subst o; reflexivity|]). contradiction.
+Qed.
+Lemma ex_norelog_post : no_relog ex_key ex_post.
+Proof.
+  intros o H. cbn [ex_post In] in H.
+  repeat (destruct H as [H|H]; [subst o; reflexivity|]). contradiction.
+Qed.
+Lemma ex_early : early_heads exc ex_key ex_pm ex_pre.
+Proof.
+  intros n safe orc H. cbn [ex_pre In] in H.
+  destruct H as [H|[H|[H|[H|[H|H]]]]]; try discriminate H; try contradiction; inversion H; subst.
+  - split; [unfold two64; lia|]. left. cbn. lia.
+  - split; [unfold two64; lia|]. right. split; [unfold evm_max_wait; cbn; lia|reflexivity].
+  - split; [unfold two64; lia|]. right. split; [unfold evm_max_wait; cbn; lia|reflexivity].
+Qed.
+
+(* log at block 1000 (level 1): heads 990 (shallow), 1001 and 1030 (lookup fails transiently), then 1065 - sixty-four
+   blocks past the depth - with the receipt unchanged: forwarded there, exactly once, in a state that holds another entry *)
+Example C10_example_forwarded_exactly_once :
+  let r := run exc exs (ex_pre ++ OHead 1065 false ex_ok :: ex_post) in
+  decisions ex_key (snd r) = [Confirmed ex_key (p_msg ex_pm)] /\
+  In (Confirmed ex_key (p_msg ex_pm)) (nth (length ex_pre) (snd r) []) /\
+  find ex_key (fst r) = None.
+Proof.
+  apply (C10_forwarded_exactly_once exc exs ex_key ex_pm ex_pre 1065 false ex_ok ex_post).
+  - exact ex_nodup.
+  - reflexivity.
+  - exact ex_wf.
+  - exact ex_norelog_pre.
+  - exact ex_norelog_post.
+  - exact ex_early.
+  - unfold two64. lia.
+  - cbn. lia.
+  - reflexivity.
+Qed.
+
+(* the same history ending in an orphaned / failed / re-mined transaction *)
+Example C10_example_dropped :
+  decisions ex_key (snd (run exc exs (ex_pre ++ OHead 1065 false (fun _ => mkAns None ENotFound) :: ex_post))) = [Dropped ex_key WOrphan] /\
+  decisions ex_key (snd (run exc exs (ex_pre ++ OHead 1065 false (fun _ => mkAns (Some (0, 1)) ENone) :: ex_post))) = [Dropped ex_key WFailed] /\
+  decisions ex_key (snd (run exc exs (ex_pre ++ OHead 1065 false (fun _ => mkAns (Some (1, 77)) ENone) :: ex_post))) = [Dropped ex_key WRemined].
+Proof.
+  assert (Hn : 0 <= 1065 < two64) by (unfold two64; lia).
+  assert (Hd : p_height ex_pm + expected_of (c_wait exc) false ex_pm <= 1065) by (cbn; lia).
+  repeat apply conj.
+  - destruct (C10_dropped exc exs ex_key ex_pm ex_pre 1065 false (fun _ => mkAns None ENotFound) ex_post
+                ex_nodup eq_refl ex_wf ex_norelog_pre ex_norelog_post ex_early Hn Hd) as [A _].
+    apply A. split; reflexivity.
+  - destruct (C10_dropped exc exs ex_key ex_pm ex_pre 1065 false (fun _ => mkAns (Some (0, 1)) ENone) ex_post
+                ex_nodup eq_refl ex_wf ex_norelog_pre ex_norelog_post ex_early Hn Hd) as [_ [A _]].
+    apply (A 0 1); [reflexivity|lia].
+  - destruct (C10_dropped exc exs ex_key ex_pm ex_pre 1065 false (fun _ => mkAns (Some (1, 77)) ENone) ex_post
+                ex_nodup eq_refl ex_wf ex_norelog_pre ex_norelog_post ex_early Hn Hd) as [_ [_ A]].
+    apply (A 77); [reflexivity|cbn; lia].
+Qed.
+
+(* abandonment: the lookups at 1001, 1030 and 1061 (= 1000 + 1 + 60) all fail transiently *)
+Example C10_example_abandoned :
+  In (Dropped ex_key WTimeout) (nth (length ex_pre) (snd (run exc exs (ex_pre ++ OHead 1061 false ex_err :: ex_post))) []) /\
+  (is_transient (a_err (ex_err ex_key)) = true /\ p_height ex_pm + expected_of (c_wait exc) false ex_pm + evm_max_wait <= 1061).
+Proof.
+  assert (H : In (Dropped ex_key WTimeout) (nth (length ex_pre) (snd (run exc exs (ex_pre ++ OHead 1061 false ex_err :: ex_post))) [])).
+  { vm_compute. repeat ((left; reflexivity) || right). }
+  split; [exact H|].
+  destruct (C10_abandoned_only_after_window exc exs ex_key ex_pm ex_pre 1061 false ex_err ex_post
+              ex_nodup eq_refl ex_wf ex_norelog_pre) as [A [B _]].
+  - intros n' safe' orc' Hin. destruct (ex_early n' safe' orc' Hin) as [R _]. exact R.
+  - unfold two64. lia.
+  - exact H.
+  - split; assumption.
+Qed.
+
+(* a history from the empty watcher: two logs, one forwarded at head 1002 in wait mode (level 2) *)
+Definition ex_hist : list op := [OLog (mkEv 1 1 1000 1 1 2 8 2 1) (Some 1600000007); OHead 1001 false ex_ok; OLog (mkEv 2 2 1001 1 2 200 15 3 2) (Some 1600000014)].
+Example C10_example_scan_safe :
+  In (Confirmed (mkKey 1 1 1 1) (mkMsg 1 1600000007 8 1 4 2 1 1 2)) (snd (step exc (fst (run exc init ex_hist)) (OHead 1002 false ex_ok))) /\
+  exists e tm, In (OLog e (Some tm)) ex_hist /\ key_of e = mkKey 1 1 1 1 /\ e_h e + evm_expected (c_wait exc) false (e_cl e) <= 1002.
+Proof.
+  assert (H : In (Confirmed (mkKey 1 1 1 1) (mkMsg 1 1600000007 8 1 4 2 1 1 2)) (snd (step exc (fst (run exc init ex_hist)) (OHead 1002 false ex_ok)))).
+  { vm_compute. repeat ((left; reflexivity) || right). }
+  split; [exact H|].
+  assert (Hwf : forall e tm, In (OLog e (Some tm)) ex_hist -> wf_ev e).
+  { intros e tm Hin. cbn [ex_hist In] in Hin.
+    destruct Hin as [Hin|[Hin|[Hin|Hin]]]; try discriminate Hin; try contradiction;
+      inversion Hin; subst; unfold wf_ev, two64, evm_max_wait; cbn; lia. }
+  assert (Hn : 0 <= 1002 < two64) by (unfold two64; lia).
+  destruct (C10_scan_forward_safe exc ex_hist 1002 false ex_ok _ _ Hwf Hn H) as [e [tm [A [B [_ [D _]]]]]].
+  exists e, tm. repeat apply conj; assumption.
+Qed.
+
+(* re-observation: receipt in block 1000 with a foreign-contract log, a core-contract log under another topic and the real
+   one (level 2): forwarded with head 1002 read before the receipt, not with head 1001 (even though the chain has advanced since) *)
+Definition ex_rcpt : rcpt :=
+  mkRcpt 1 (Some 1000) [Some (mkRLog 2 (Some evm_lmp_topic) (Some (mkEv 1 1 1000 1 5 0 1 1 50)));
+                        Some (mkRLog 1 (Some 17) None); None;
+                        Some (mkRLog 1 (Some evm_lmp_topic) (Some (mkEv 1 1 1000 1 1 2 8 2 1)))].
+Example C10_example_reobserve :
+  reobserve exc (Some 1002) (Some 1002) (Some ex_rcpt) (Some 1600000007) = [Reobserved (mkMsg 1 1600000007 8 1 4 2 1 1 2)] /\
+  reobserve exc (Some 1001) (Some 1300) (Some ex_rcpt) (Some 1600000007) = [] /\
+  reobserve exc (Some 1002) (Some 1002) (Some (mkRcpt 0 (Some 1000) (r_logs ex_rcpt))) (Some 1600000007) = [].
+Proof. vm_compute. repeat apply conj; reflexivity. Qed.
+
+Print Assumptions C10_scan_forward_safe.
+Print Assumptions C10_scan_step_safe.
+Print Assumptions C10_reobserve_safe.
+Print Assumptions C10_reobserve_safe_u64.
+Print Assumptions C10_forwarded_exactly_once.
+Print Assumptions C10_first_decisive_head.
+Print Assumptions C10_still_pending_while_early.
+Print Assumptions C10_dropped.
+Print Assumptions C10_abandoned_only_after_window.
+Print Assumptions C10_at_most_once.
+Print Assumptions C10_key_independence.
+Print Assumptions C10_pending_keys_distinct.
+Print Assumptions C10_original_order_refuted.
